@@ -119,16 +119,29 @@ pub fn perturb(doc: &MVal, path: &str, ks: &KeySet, rng: &mut Rng) -> MVal {
             }
             MVal::Obj(out)
         }
-        MVal::Arr(items) => MVal::Arr(
-            items
-                .iter()
-                .enumerate()
-                .map(|(i, v)| match v {
-                    MVal::Obj(_) => perturb(v, &format!("{}[{}]", path, i), ks, rng),
-                    other => other.clone(),
-                })
-                .collect(),
-        ),
+        MVal::Arr(items) => {
+            // an array the rule only reaches through name[i]: elements at other positions are
+            // not addressed by any predicate and may be altered (never added or removed)
+            let np = gen::strip_indices(path);
+            let only_indexed = ks.indexed.get(&np).filter(|_| !ks.unindexed.contains(&np));
+            MVal::Arr(
+                items
+                    .iter()
+                    .enumerate()
+                    .map(|(i, v)| match (only_indexed, v) {
+                        (Some(idx), _) if !idx.contains(&i) => {
+                            if rng.chance(1, 2) {
+                                MVal::Str(format!("altered{}", rng.below(100)))
+                            } else {
+                                v.clone()
+                            }
+                        }
+                        (_, MVal::Obj(_)) => perturb(v, &format!("{}[{}]", path, i), ks, rng),
+                        (_, other) => other.clone(),
+                    })
+                    .collect(),
+            )
+        }
         other => other.clone(),
     }
 }
@@ -144,13 +157,20 @@ fn strip(doc: &MVal, path: &str, ks: &KeySet) -> MVal {
                 .map(|(k, v)| (k.clone(), strip(v, &join(path, k), ks)))
                 .collect(),
         ),
-        MVal::Arr(items) => MVal::Arr(
-            items
-                .iter()
-                .enumerate()
-                .map(|(i, v)| strip(v, &format!("{}[{}]", path, i), ks))
-                .collect(),
-        ),
+        MVal::Arr(items) => {
+            let np = gen::strip_indices(path);
+            let only_indexed = ks.indexed.get(&np).filter(|_| !ks.unindexed.contains(&np));
+            MVal::Arr(
+                items
+                    .iter()
+                    .enumerate()
+                    .map(|(i, v)| match only_indexed {
+                        Some(idx) if !idx.contains(&i) => MVal::Null,
+                        _ => strip(v, &format!("{}[{}]", path, i), ks),
+                    })
+                    .collect(),
+            )
+        }
         other => other.clone(),
     }
 }
